@@ -75,6 +75,16 @@ func c12Gen(l *c12Loop, inner [2]string) {
 	case "bottom":
 		plain = fmt.Sprintf("%s := %s\nfor {\n%s\n%s\nif !(%s %s %s) {\nbreak\n}\n}", v, S, body, upd, v, l.op, N)
 		nat = fmt.Sprintf("%s := %s\nbegin(%d)\nfor {\n%s\nbody(%d)\n%s\n%s\nif !(%s %s %s) {\nbreak\n}\n}", v, S, id, hdr, id, body, upd, v, l.op, N)
+	case "multientry":
+		// the variable is conditionally re-seeded right before an init-less for: the loop header
+		// has two entering edges that carry different start values
+		reseed := fmt.Sprintf("if b > 5 {\n%s = %s\n}", v, cv("a+1"))
+		plain = fmt.Sprintf("%s := %s\n%s\nfor ; %s %s %s; %s {\n%s\n}", v, S, reseed, v, l.op, N, upd, body)
+		nat = fmt.Sprintf("%s := %s\n%s\nbegin(%d)\nfor ; %s && %s %s %s; %s {\nbody(%d)\n%s\n}", v, S, reseed, id, hdr, v, l.op, N, upd, id, body)
+	case "bottompre":
+		// bottom-tested on the value BEFORE the update: for { body; if !(i op N) {break}; i += step }
+		plain = fmt.Sprintf("%s := %s\nfor {\n%s\nif !(%s %s %s) {\nbreak\n}\n%s\n}", v, S, body, v, l.op, N, upd)
+		nat = fmt.Sprintf("%s := %s\nbegin(%d)\nfor {\n%s\nbody(%d)\n%s\nif !(%s %s %s) {\nbreak\n}\n%s\n}", v, S, id, hdr, id, body, v, l.op, N, upd)
 	case "exittrue":
 		plain = fmt.Sprintf("%s := %s\nfor {\nif %s %s %s {\nbreak\n}\n%s\n%s\n}", v, S, v, c12Neg(l.op), N, body, upd)
 		nat = fmt.Sprintf("%s := %s\nbegin(%d)\nfor {\n%s\nif %s %s %s {\nbreak\n}\nbody(%d)\n%s\n%s\n}", v, S, id, hdr, v, c12Neg(l.op), N, id, body, upd)
@@ -119,16 +129,18 @@ func c12Family(thorough bool) []*c12Func {
 		f.nat = fmt.Sprintf("func %s(a, b int) int {\nacc := 0\n%s\nreturn acc\n}\n", name, natBody)
 		out = append(out, f)
 	}
-	types_ := []string{"int"}
+	// narrow types wrap within the argument grid (quick: two of them; thorough adds int16/uint16
+	// and int32 conversions, which only wrap through the multiplication of the claim)
+	types_ := []string{"int", "int8", "uint8"}
 	if thorough {
-		types_ = []string{"int", "int8", "uint8"}
+		types_ = []string{"int", "int8", "uint8", "int16", "uint32"}
 	}
-	shapes := []string{"for3", "while", "bottom", "exittrue", "continue", "extrabreak", "condupdate", "twolatch"}
+	shapes := []string{"for3", "while", "bottom", "bottompre", "multientry", "exittrue", "continue", "extrabreak", "condupdate", "twolatch"}
 	for _, T := range types_ {
 		for _, shape := range shapes {
 			for _, op := range []string{"<", "<=", ">", ">=", "!="} {
 				for _, step := range []int{1, 2, 3, 5, -1, -2} {
-					for _, start := range []string{"0", "1", "a"} {
+					for _, start := range []string{"0", "1", "7", "10", "a"} {
 						for _, bound := range []string{"7", "10", "b"} {
 							l := &c12Loop{id: 0, v: "i", typ: T, start: start, bound: bound, op: op, step: step, shape: shape}
 							c12Gen(l, [2]string{})
@@ -259,7 +271,7 @@ func body(id int) { acts[id][len(acts[id])-1].body++ }
 
 type claim struct {
 	loop  int
-	width int // 0 = int, 8 = int8, -8 = uint8
+	width int // 0 = int, 8 = int8, -8 = uint8, 16 = int16, -32 = uint32
 	iv    func(a, b int, k int64) val
 	trip  func(a, b int) val
 }
@@ -276,6 +288,10 @@ func wrap(v int64, width int) int64 {
 		return int64(int8(v))
 	case -8:
 		return int64(uint8(v))
+	case 16:
+		return int64(int16(v))
+	case -32:
+		return int64(uint32(v))
 	}
 	return v
 }
@@ -426,6 +442,10 @@ func TestVerifC12(t *testing.T) {
 					width = 8
 				} else if sl.typ == "uint8" {
 					width = -8
+				} else if sl.typ == "int16" {
+					width = 16
+				} else if sl.typ == "uint32" {
+					width = -32
 				}
 				st, ok1 := c12Expr(iv.Start)
 				sp, ok2 := c12Expr(iv.Step)
